@@ -258,7 +258,6 @@ func runC02(r *evid.Run) {
 		nlEnc.Encode(map[string]interface{}{"ev": "Netlist", "post": nl})
 		nlOrigins = append(nlOrigins, nlOrigin{what, topo, nl, text})
 	}
-	input := func(port, k int) uint64 { return uint64(10*(port+1)+1+k) % 256 }
 	var machines, agree, values, bothDeviate int64
 	bothDeviateExample := ""
 	perTopo := map[string]int64{}
@@ -269,99 +268,10 @@ func runC02(r *evid.Run) {
 			r.Inconclusive("cannot build %s: %v", f.Topo, err)
 			return
 		}
-		hold, ack := 0, 0
-		switch f.EnvMode {
-		case "holds-valid":
-			hold = 3
-		case "slow-ack":
-			ack = 2
-		}
-		want := 0
-		for _, o := range f.Outs {
-			if len(o) > want {
-				want = len(o)
-			}
-		}
 		machines++
-		var delays *simbox.SimDelays
-		if parts := strings.SplitN(f.SimDelay, ":", 2); len(parts) == 2 {
-			d, _ := strconv.Atoi(parts[1])
-			delays = onePoint(map[string]int{parts[0]: d})
-		}
-		// the root cause of the recorded handshake defect (C04): an i2rw completes while the processor's
-		// own received line for that input is still high from its previous transfer.  Whether that
-		// happened is observed on both back-ends.
-		instr := make([][]fabStep, len(f.Progs)) // the instruction at every program counter value
-		for p, steps := range f.Progs {
-			for k := 0; k < f.Pads[p]+f.BPad; k++ {
-				instr[p] = append(instr[p], fabStep{Op: "NOP"})
-			}
-			instr[p] = append(instr[p], steps...)
-		}
-		recvAt := func(p int, pc uint64) int {
-			if int(pc) < len(instr[p]) && instr[p][pc].Op == "RECV" {
-				return instr[p][pc].A
-			}
-			return -1
-		}
-		simRefire, hdlRefire := false, false
-		prePc := make([]uint64, len(f.Progs))
-		preHigh := make([]bool, len(f.Progs))
-		envSimTick = func(vm *bondmachine.VM, pre bool) {
-			for p := range f.Progs {
-				pv := vm.Processors[p]
-				if pre {
-					prePc[p], preHigh[p] = pv.Pc, false
-					if in := recvAt(p, pv.Pc); in >= 0 && in < len(pv.InputsRecv) {
-						preHigh[p] = pv.InputsRecv[in]
-					}
-				} else if preHigh[p] && pv.Pc != prePc[p] {
-					simRefire = true
-				}
-			}
-		}
-		envSimDelays = delays
-		sres, serr := runEnvTimed(bm, input, 120*want+600, want, hold, ack)
-		envSimDelays, envSimTick = nil, nil
-		var hres envResult
-		sim, files, herr := elaborateBM(bm)
-		if herr == nil {
-			var srcs []string
-			for _, n := range []string{"bondmachine.v"} {
-				srcs = append(srcs, files[n])
-			}
-			for n, t := range files {
-				if strings.HasPrefix(n, "arch_") {
-					srcs = append(srcs, t)
-				}
-			}
-			if d, perr := vlog.Parse(srcs...); perr == nil {
-				logNetlist("machine "+f.Topo, bm, d, files["bondmachine.v"])
-			}
-		}
-		if herr == nil {
-			hPc := make([]uint64, len(f.Progs))
-			hHigh := make([]bool, len(f.Progs))
-			hdlPreClockHook = func(s *vlog.Sim) {
-				for p := range f.Progs {
-					pc, _ := s.Get(procPath(p) + "_pc")
-					hPc[p], hHigh[p] = pc, false
-					if in := recvAt(p, pc); in >= 0 {
-						v, _ := s.Get(procPath(p) + "i" + strconv.Itoa(in) + "_recv")
-						hHigh[p] = v == 1
-					}
-				}
-			}
-			hdlClockHook = func(s *vlog.Sim) {
-				for p := range f.Progs {
-					if pc, _ := s.Get(procPath(p) + "_pc"); hHigh[p] && pc != hPc[p] {
-						hdlRefire = true
-					}
-				}
-			}
-			hres, herr = runEnvHdl(sim, f.Nin, f.Nout, input, 120*want+800, want, hold, ack)
-			hdlPreClockHook, hdlClockHook = nil, nil
-		}
+		run := runFabric(f, bm, func(d *vlog.Design, top string) { logNetlist("machine "+f.Topo, bm, d, top) })
+		sres, hres, serr, herr := run.Sim, run.Hdl, run.SimErr, run.HdlErr
+		simRefire, hdlRefire := run.SimRefire, run.HdlRefire
 		class := f.Topo + ":" + f.EnvMode
 		if f.Shared {
 			class += ":shared-domain"
@@ -694,4 +604,123 @@ func netlistOf(d *vlog.Design, bm *bondmachine.Bondmachine) netlist {
 		sort.Slice(b, func(i, j int) bool { return fmt.Sprint(b[i]) < fmt.Sprint(b[j]) })
 	}
 	return nl
+}
+
+// fabricRun is what the two back-ends did with one BMFabric machine.
+type fabricRun struct {
+	Sim, Hdl       envResult
+	SimErr, HdlErr error
+	// the root events of the recorded handshake defects (C04), observed during the run:
+	SimRefire, HdlRefire bool // an i2rw completed while the processor's own received line was still high
+	SimStale             bool // an r2owa completed in the tick it was issued (against a stale received line)
+}
+
+func fabricInput(port, k int) uint64 { return uint64(10*(port+1)+1+k) % 256 }
+
+// runFabric executes a BMFabric machine on the real simulator and on the real generated Verilog, each
+// inside the handshaking environment of the machine's environment mode, and observes the root events.
+func runFabric(f fabMachine, bm *bondmachine.Bondmachine, netlist func(d *vlog.Design, top string)) (out fabricRun) {
+	input := fabricInput
+	hold, ack := 0, 0
+	switch f.EnvMode {
+	case "holds-valid":
+		hold = 3
+	case "slow-ack":
+		ack = 2
+	}
+	want := 0
+	for _, o := range f.Outs {
+		if len(o) > want {
+			want = len(o)
+		}
+	}
+	var delays *simbox.SimDelays
+	if parts := strings.SplitN(f.SimDelay, ":", 2); len(parts) == 2 {
+		d, _ := strconv.Atoi(parts[1])
+		delays = onePoint(map[string]int{parts[0]: d})
+	}
+	instr := make([][]fabStep, len(f.Progs)) // the instruction at every program counter value
+	for p, steps := range f.Progs {
+		for k := 0; k < f.Pads[p]+f.BPad; k++ {
+			instr[p] = append(instr[p], fabStep{Op: "NOP"})
+		}
+		instr[p] = append(instr[p], steps...)
+	}
+	at := func(p int, pc uint64, op string) int {
+		if int(pc) < len(instr[p]) && instr[p][pc].Op == op {
+			if op == "RECV" {
+				return instr[p][pc].A
+			}
+			return instr[p][pc].B
+		}
+		return -1
+	}
+	prePc := make([]uint64, len(f.Progs))
+	preHigh := make([]bool, len(f.Progs))
+	sendSince := make([]int, len(f.Progs)) // ticks the processor has been at its current SEND
+	envSimTick = func(vm *bondmachine.VM, pre bool) {
+		for p := range f.Progs {
+			pv := vm.Processors[p]
+			if pre {
+				prePc[p], preHigh[p] = pv.Pc, false
+				if in := at(p, pv.Pc, "RECV"); in >= 0 && in < len(pv.InputsRecv) {
+					preHigh[p] = pv.InputsRecv[in]
+				}
+				if at(p, pv.Pc, "SEND") >= 0 && pv.DelayCounter == 0 {
+					sendSince[p]++
+				}
+			} else {
+				if preHigh[p] && pv.Pc != prePc[p] {
+					out.SimRefire = true
+				}
+				if pv.Pc != prePc[p] {
+					if at(p, prePc[p], "SEND") >= 0 && sendSince[p] == 1 {
+						out.SimStale = true
+					}
+					sendSince[p] = 0
+				}
+			}
+		}
+	}
+	envSimDelays = delays
+	out.Sim, out.SimErr = runEnvTimed(bm, input, 120*want+600, want, hold, ack)
+	envSimDelays, envSimTick = nil, nil
+	sim, files, herr := elaborateBM(bm)
+	out.HdlErr = herr
+	if herr != nil {
+		return out
+	}
+	if netlist != nil {
+		srcs := []string{files["bondmachine.v"]}
+		for n, t := range files {
+			if strings.HasPrefix(n, "arch_") {
+				srcs = append(srcs, t)
+			}
+		}
+		if d, perr := vlog.Parse(srcs...); perr == nil {
+			netlist(d, files["bondmachine.v"])
+		}
+	}
+	hPc := make([]uint64, len(f.Progs))
+	hHigh := make([]bool, len(f.Progs))
+	hdlPreClockHook = func(s *vlog.Sim) {
+		for p := range f.Progs {
+			pc, _ := s.Get(procPath(p) + "_pc")
+			hPc[p], hHigh[p] = pc, false
+			if in := at(p, pc, "RECV"); in >= 0 {
+				v, _ := s.Get(procPath(p) + "i" + strconv.Itoa(in) + "_recv")
+				hHigh[p] = v == 1
+			}
+		}
+	}
+	hdlClockHook = func(s *vlog.Sim) {
+		for p := range f.Progs {
+			if pc, _ := s.Get(procPath(p) + "_pc"); hHigh[p] && pc != hPc[p] {
+				out.HdlRefire = true
+			}
+		}
+	}
+	out.Hdl, out.HdlErr = runEnvHdl(sim, f.Nin, f.Nout, input, 120*want+800, want, hold, ack)
+	hdlPreClockHook, hdlClockHook = nil, nil
+	return out
 }
